@@ -164,7 +164,9 @@ def sweep(r, date, cfg, dense):
 
 def instance_dates():
     """first day of every period in which the contribution rules or their parameters can differ"""
-    start = datetime.date(2015, 1, 1).toordinal()
+    # from the introduction of the transition zone (2003-04-01) on; the mid-year changes of contribution rates
+    # (2005-07, 2009-07, …) are dates at which beginning-of-year look-ups differ from the current values
+    start = datetime.date(2003, 4, 1).toordinal()
     ds = {start}
     raw = extract.raw_yaml("sozialv_beitr")
     for p, body in raw.items():
@@ -194,6 +196,7 @@ def run(tier: str) -> int:
     rnd = common.rng("C19")
     dates = instance_dates()
     r.extra["instance_dates"] = dates
+    midyear = [d for d in dates if d[5:] != "01-01"]
     if quick:
         keep = {dates[0], dates[-1], "2022-10-01", "2019-07-01"}
         dates = [d for d in dates if d in keep] or dates[:3]
@@ -204,6 +207,15 @@ def run(tier: str) -> int:
     for date in sdates:
         for cfg in (list(configs(date)) if not quick else list(configs(date))[::3]):
             ok, _ = r.attempt(f"wage sweep at {date}", sweep, r, date, cfg, not quick)
+    if quick:
+        # every mid-year change of contribution rules / rates (beginning-of-year look-ups differ from the current values
+        # only after such a change): one configuration each, certified and swept
+        for date in midyear:
+            if date in dates:
+                continue
+            cfg = rnd.choice(list(configs(date)))
+            run_config(r, date, cfg, rnd)
+            ok, _ = r.attempt(f"wage sweep at {date}", sweep, r, date, cfg, False)
     r.sample({"chain": "bruttolohn_m -> … -> ges_rentenv_beitr_arbeitnehmer_m (7 rules)", "date": "2023-07-01",
               "certified": "∀ w ≥ 0: 0 ≤ f w; x ≤ y → f x ≤ f y; w ≤ 520 → f w = 0; w ≥ 7300 → f w = 678.9"})
     return r.finish()
